@@ -24,7 +24,7 @@ import re
 from hypothesis import strategies as st
 
 from vf import runner
-from vf.engine import Case, Failure, h, live_first
+from vf.engine import Case, Failure, h, live_first, deviation_sets
 from vf.oracle import c03_drynorm as dn
 from vf.project import Project
 from vf.render import c03_dryproj as rp
@@ -358,11 +358,10 @@ def judge(case, files, langs, vs):
     if not spec:
         return [], model, groups, inexact
     names = applicable_deviations(langs)
-    for r in range(1, len(names) + 1):
-        for devs in itertools.combinations(names, r):
-            if not evaluate(case, files, langs, vs, devs)[0]:
-                first = spec[0]
-                return [Failure(f"dev:{n}", {"explained_by_deviations": list(devs), "first_spec_failure": first.sig, **first.detail}) for n in devs], model, groups, inexact
+    for devs in deviation_sets("C03", names):
+        if not evaluate(case, files, langs, vs, devs)[0]:
+            first = spec[0]
+            return [Failure(f"dev:{n}", {"explained_by_deviations": list(devs), "first_spec_failure": first.sig, **first.detail}) for n in devs], model, groups, inexact
     return spec, model, groups, inexact
 
 
